@@ -9,6 +9,7 @@ TRUST = ('trusted: library models (num-bigint as wide bit-vectors, Vec/slice/ite
 TECH = 'symbolic execution of rustc MIR (regenerated from /repo each run) + SMT (z3), bounded; counterexamples replayed natively'
 
 CLAIMS = {
+ 'C09': ('bounded symbolic execution of the real printers and readers from MIR. Classic pair: disassemble (ir_for_atom, write_ir, pybytes_repr, ...) -> assemble (IRReader, consume_*, interpret_atom_value, assemble_from_ir) for one atom of 0..3 (thorough 0..4) arbitrary bytes alone, as list head, second element and dotted tail, operator versions 0,1,2. Modern: impl Display for SExp on what convert_from_clvm_rs yields (and on quoted strings with either quote) -> parse_sexp -> convert_to_clvm_rs and -> classic assemble, fixed integer mode. z3 decides byte identity on every path', 'DESIGN.md §4 C09'),
  'C15': ('bounded symbolic execution of the real reader MIR (parse_sexp, ParsePartialResult::{new,push,finalize}, parse_sexp_step, make_atom, from_hex, normalize_int, enlist, make_cons, restructure_list, Srcloc::{advance,ext}, combine_src_location, ...) on every tab-free byte string of length 0..3 (thorough 0..4): z3 partitions the inputs by the byte classes the code distinguishes, and on every path each leaf location is compared with the token extent and each list location with the parenthesis extent recomputed from the bytes by an independent reference reader; error locations must lie within the text', 'DESIGN.md §4 C15'),
  'C20': ('symbolic execution of the real table code from MIR (KW_PAIRS const, the six lazy_static KEYWORD_* initialisers, keyword_from_atom/to_atom, prims(), prim_map()) and of the real dispatchers (OriginalDialect::op from the repo, ChiaDialect::op from clvmr\'s MIR, with the flags DefaultProgramRunner uses per operators_version) on a symbolic 1-byte and a symbolic 4-byte opcode; z3 decides that every table opcode reaches an implementation, tables are mutually inverse per version, versions only add, and the modern primitive list agrees with the classic tables in both directions. Finite domain: same guarantee as exhaustive checking', 'DESIGN.md §4 C20'),
  'C07': ('bounded symbolic execution of the real convert_from_clvm_rs / convert_to_clvm_rs / both sha256tree functions / SExp::equal_to / == / impl Hash MIR: round trip and three-way hash agreement for every atom of 0..4 (thorough 0..9) bytes and every tree of <=3 (4) leaves with atoms of 0..2 (3) bytes in both integer modes; equality and Hash against encoding equality for every pair of atoms of 0..2 (3) bytes in every pair of spellings (fixed mode). SHA-256 is an injective uninterpreted function of its preimage', 'DESIGN.md §4 C07'),
